@@ -458,6 +458,9 @@ pub struct Cfg {
     pub timer: Option<Option<String>>,
     /// FmtSpan bits: 1 new, 2 enter, 4 exit, 8 close
     pub span_events: u8,
+    /// 0 = `fmt().json()..finish()`; 1..3 = `registry().with(X)` with X = the JSON subscriber
+    /// boxed / in a one-element Vec of boxes / in `Some(..)` (the usual run-time-selected forms)
+    pub wrap: u8,
 }
 impl Cfg {
     pub fn describe(&self) -> serde_json::Value {
@@ -465,7 +468,8 @@ impl Cfg {
             "with_target": self.target, "with_level": self.level, "with_thread_ids": self.tids, "with_thread_names": self.tnames,
             "with_file": self.file, "with_line_number": self.line,
             "timer": match &self.timer { None => "without_time".to_string(), Some(None) => "SystemTime".to_string(), Some(Some(t)) => format!("constant {t:?}") },
-            "span_events_bits(new=1,enter=2,exit=4,close=8)": self.span_events})
+            "span_events_bits(new=1,enter=2,exit=4,close=8)": self.span_events,
+            "construction": (["fmt().json().finish()", "registry().with(subscriber.boxed())", "registry().with(vec![subscriber.boxed()])", "registry().with(Some(subscriber.boxed()))"][self.wrap as usize])})
     }
 }
 
